@@ -280,3 +280,20 @@ def format_traceback(E, st, args, kw):
 R.inline("Pyro5.server.Daemon.__annotations")
 
 R.glob("Pyro5.svr_threads._client_disconnect_lock", VObj(-1, "lock"), "module-level lock serialising disconnect handling")
+
+
+@R.spec("builtins.dict:copy", doc="dict(d or {}) of an annotation dict: a new dict object with the same provenance")
+def _dict_copy(E, st, args, kw):
+    src = args[0]
+    d = new_annotations(st, st.get(src, "prov", frozenset(["empty"])) if isinstance(src, VObj) else ["empty"], "copied")
+    return [Res(st, d)]
+
+
+_orig_dict = R.specs["builtins.dict"]
+
+
+@R.spec("builtins.dict")
+def _dict(E, st, args, kw):
+    if len(args) == 1 and isinstance(args[0], VObj) and args[0].cls == "seqdict":
+        return _dict_copy(E, st, args, kw)
+    return _orig_dict(E, st, args, kw)
